@@ -148,7 +148,8 @@ def c01(pid, tier, replay):
     # key-emulating axes are keys too: their quiescence and their disconnect clean-up belong to C01
     return device_check(pid, tier, replay, ["C01_"], keys_jobs(tier) + axis_jobs("akey", [["ABS_HAT0X"], ["ABS_RX"], ["ABS_GAS"]], tier) + akeymap_jobs(tier),
                         drivers=[devdrivers.random_keys, devdrivers.random_cfg_keys, devdrivers.edge_pitch_collisions, devdrivers.c08_batches,
-                                 devdrivers.akey_mapping_batches, devdrivers.two_handler_key_batches, devdrivers.tight_key_batches],
+                                 devdrivers.akey_mapping_batches, devdrivers.two_handler_key_batches, devdrivers.tight_key_batches,
+                                 devdrivers.random_exit],
                         assumptions=ASSUME_DEV)
 
 
@@ -190,7 +191,8 @@ def c13(pid, tier, replay):
     aact = [J("aact", Variant="aact", AxSet={"ABS_Z"}, OctB=1, ChanB=0, TapActions=False, HoldSet={"KEY_F9"}),
             J("aact", Variant="aact", AxSet={"ABS_HAT0X"}, OctB=1, ChanB=0, TapActions=False, HoldSet={"KEY_F9"})]
     return device_check(pid, tier, replay, ["C13_"], keys_jobs(tier) + aact,
-                        drivers=[devdrivers.random_keys, devdrivers.random_cfg_keys, devdrivers.panic_axis_batches, devdrivers.action_axis_batches],
+                        drivers=[devdrivers.random_keys, devdrivers.random_cfg_keys, devdrivers.panic_axis_batches, devdrivers.action_axis_batches,
+                                 devdrivers.tight_key_batches],
                         assumptions=ASSUME_DEV)
 
 
@@ -690,6 +692,12 @@ def fan_scenarios(seed, tier):
             add(cap, [{"op": "spawn", "c": x} for x in ["a"] + others] + [{"op": "stop", "c": "a"}] + burst +
                 [{"op": "despawn", "c": x} for x in others] + [{"op": "despawn", "c": "a"}, {"op": "spawn", "c": "e"}] +
                 [{"op": "inject", "m": 60 + i} for i in range(3)])
+        # ... and consumers that STAY attached and reading while one of the others is detached during the blocked round:
+        # they still receive every message (the order in which a round visits the outputs is random: repeated)
+        for rep in range(12):
+            gone = ["b", "c"][:1 + rep % 2]
+            add(cap, [{"op": "spawn", "c": x} for x in ["a", "b", "c", "d", "e"]] + [{"op": "stop", "c": "a"}] + burst +
+                [{"op": "despawn", "c": x} for x in gone] + [{"op": "despawn", "c": "a"}] + [{"op": "inject", "m": 60 + i} for i in range(3)])
         # four consumers that all stopped reading, a round blocked on the first full one, all four detached one after the
         # other: each removal frees one blocked delivery while earlier removals are still waiting to close their channels
         for rep in range(4):
